@@ -549,3 +549,56 @@ Proof.
   - destruct (push_bytes_next prog (st_pc unit st)); [|discriminate]. inversion H; subst.
     now rewrite Nat.eqb_refl, calls_eqb_refl.
 Qed.
+
+(* ---- every branch target the model accepts lies inside the program (0 <= t <= len), also for
+   offsets whose int addition wraps *)
+Lemma target_in_le : forall strict len t n, target_in strict len t = Some n -> n <= len.
+Proof.
+  intros strict len t n H. unfold target_in in H.
+  destruct (t <? 0)%Z eqn:E0; [discriminate|].
+  destruct strict.
+  - destruct (Z.of_nat len <=? t)%Z eqn:E1; [discriminate|]. inversion H. lia.
+  - destruct (Z.of_nat len <? t)%Z eqn:E1; [discriminate|]. inversion H. lia.
+Qed.
+
+Lemma branch_target_2b_le : forall v prog pc t, branch_target_2b v prog pc = Some t -> t <= length prog.
+Proof.
+  intros v prog pc t H. unfold branch_target_2b in H.
+  destruct ((branch_offset prog (S pc) <? 0)%Z && N.ltb v 4); [discriminate|].
+  eapply target_in_le; eauto.
+Qed.
+
+Lemma branch_target_varint_le : forall prog pc t isz,
+    branch_target_varint prog pc = Some (Some t, isz) -> t <= length prog.
+Proof.
+  intros prog pc t isz H. unfold branch_target_varint in H.
+  destruct (varint (skipn (S pc) prog)) as [off n]. destruct (n <=? 0)%Z; [discriminate|].
+  inversion H as [[H1 H2]]. eapply target_in_le; eauto.
+Qed.
+
+Lemma switch_target_le : forall prog pc idx t, switch_target prog pc idx = Some t -> t <= length prog.
+Proof.
+  intros prog pc idx t H. unfold switch_target in H.
+  destruct (Nat.ltb (length prog) (S (S pc) + 2 * N.to_nat (byte_at prog (S pc)))); [discriminate|].
+  eapply target_in_le; eauto.
+Qed.
+
+Theorem accepted_targets_in_program : forall lsv max_bytes v s prog pc nx ts thr,
+    run_check lsv max_bytes v s prog pc = Ok (nx, ts, thr) ->
+    Forall (fun o => forall t, o = Some t -> t <= length prog) ts.
+Proof.
+  intros lsv max_bytes v s prog pc nx ts thr H. unfold run_check in H.
+  destruct (os_ck s).
+  - inversion H; constructor.
+  - inversion H; subst. constructor; [|constructor]. intros t Ht. eapply branch_target_2b_le; eauto.
+  - destruct (branch_target_varint prog pc) as [[ot isz]|] eqn:E; [|discriminate].
+    inversion H; subst. constructor; [|constructor]. intros t Ht. subst ot. eapply branch_target_varint_le; eauto.
+  - destruct (Nat.leb (length prog) (S pc)); [discriminate|]. inversion H; subst.
+    apply Forall_forall. intros o Ho t Ht. subst o. apply in_map_iff in Ho. destruct Ho as (i & Hi & _).
+    eapply switch_target_le; eauto.
+  - destruct (parse_int_imm prog (S pc)); [|discriminate]. inversion H; constructor.
+  - destruct (byte_imm_args lsv max_bytes prog pc); [|discriminate]. inversion H; constructor.
+  - destruct (push_bytes_next prog pc); [|discriminate]. inversion H; constructor.
+  - destruct (push_int_next prog pc); [|discriminate]. inversion H; constructor.
+  - discriminate.
+Qed.
